@@ -202,10 +202,9 @@ func main() {
 	rep = engine.NewReport("C14")
 	rep.Rule = "explicit-state BFS: every operation of the alphabet (WriteSector over coordinates x sizes, PadToFullSector, re-open; over-limit and zero-length writes as leaves) is applied to every reachable canonical state (allocation layout + length words + occupancy + file length), once from the state's shortest history and once more after reading every coordinate; every WriteSector is re-run with the clock ticking before each of its later clock readings. distinct = (state, operation, context, tick) tuples, each executed once by construction; non-trivial = transitions on a region that holds another chunk or overwrites one. Family env (env.go): every history of 1..D operations over a 17-operation alphabet (writes x clock step {next second, same second, backwards}, reads, re-open, pad, a refused write that is not a leaf), executed WITHOUT state merging in every environment of a menu (devices answering Read short / with data+EOF, callers that reuse payload buffers and returned slices or keep returned slices for a final comparison, region.Create/Open/Close on a real path); distinct = (environment, history), each judged once on its last operation by the same oracle"
 	regionx.InstallClock()
-	// 300 s, not 20 s: with the machine oversubscribed 25x (load average 400 on 16 cores) a 1-byte in-memory
-	// WriteSector was observed to stay in flight for more than 20 s of wall time - a false alarm
-	regionx.StartWatchdog(300*time.Second, func(variant int, hist []regionx.Op) {
-		record("watchdog", variant, hist, []regionx.Finding{{Class: "store/" + entryName(hist) + "/non-termination", Detail: "a single call ran for more than 300 s"}})
+	// the limit is measured on the engine's load-aware virtual clock (regionx.StartWatchdog), not on raw wall time
+	regionx.StartWatchdog(30*time.Second, func(variant int, hist []regionx.Op) {
+		record("watchdog", variant, hist, []regionx.Finding{{Class: "store/" + entryName(hist) + "/non-termination", Detail: "a single call ran for more than 30 s (load-adjusted)"}})
 		rep.Cap("aborted by the non-termination watchdog")
 		rep.Finish()
 	})
@@ -249,7 +248,7 @@ func main() {
 	// are caps for oversubscribed machines), then the searches, which use what is left of the run deadline
 	envDeadline := time.Now().Add(90 * time.Second)
 	if thorough {
-		envDeadline = time.Now().Add(6 * time.Minute)
+		envDeadline = time.Now().Add(4 * time.Minute)
 	}
 	if only == "" || only == "env" {
 		exploreEnv(thorough, fdir, envDeadline)
